@@ -40,12 +40,14 @@ C18_suit == C.k = "suit" => /\ \A a, b \in 1..Len(C.limits) : (C.limits[a] <= C.
                             /\ (\E a \in 1..Len(C.res) : C.res[a]) => C.nf
 C18_picksuit == C.k = "picksuit" => /\ Len(C.suit) = C.max
                                     /\ C.res = IF C.which = "min" THEN MinOf(C.suit) ELSE MaxOf(C.suit)
-C18_new == C.k = "new" => (C.nf => C.res = "ok")
+C18_new == C.k = "new" /\ C.res # "skipped" => (C.nf => C.res = "ok")
 \* C15, constructor clause: accepted exactly when every configured priority has a non-zero share of q
 \* (and the divider is sum-preserving, which the real Fair/Rate are)
 ShareFilled == LET sh == ToFn(C.share) IN \A p \in SeqRange(C.ps) : Get(sh, p) >= 1
-C15_new == C.k = "new" => /\ (C.res = "ok" <=> (C.q > 0 /\ ShareFilled))
+C15_new == C.k = "new" /\ C.res # "skipped" => /\ (C.res = "ok" <=> (C.q > 0 /\ ShareFilled))
                           /\ (C.q > 0 /\ ~ShareFilled => C.res = "toosmall")
 \* C15: a divider that, at creation, returns a non-zero added total different from the dividend makes New return ErrDividerBad
-C15_newfault == C.k = "newfault" => ((C.total # 0 /\ C.total # C.q) => C.res = "bad")
+\* and a division at creation that adds nothing leaves every share at zero: rejected as well
+C15_newfault == C.k = "newfault" /\ C.res # "skipped" => /\ ((C.total # 0 /\ C.total # C.q) => C.res = "bad")
+                                                          /\ (C.total = 0 => C.res # "ok")
 =============================================================================
